@@ -10,7 +10,7 @@ ASSUMPTIONS = [
     "two writer models: Model/Btor2Ser.v (no name tokens, no alias lines) and Model/Btor2SerNames.v (serialize_named_v: the same emission with the name bookkeeping of serialize.rs); the round-trip theorems are proved for BOTH (C09_roundtrip_sem, C09_roundtrip_sem_named). Tie: the lines of serialize_named_v must equal the real writer's text token by token; Model.parse_lines (Model.serialize sys) is compared with the real reader's result on the real writer's text modulo symbol names (systems whose expanded trees have < 30000 nodes; larger ones are checked on the implementation side only)",
     "equivalence of read(write(sys)) and sys is decided by structural identity of the expression graphs under the positional symbol correspondence, and where they differ by the extracted Spec/Eval.v on 6 valuations (all zero, all ones, 4 random with corner values)",
     "states without init and next are expected to come back as inputs appended to the input list (parse.rs demotes them); this is taken as the specified behaviour of the pair, not as a failure",
-    "names: proved only for inputs (C09_names_survive_inputs_partial: an input whose name the writer prints on its declaration comes back as the same symbol at the same position); names of states and outputs are tested, not proved. Model/Btor2SerNames.v models the writer INCLUDING its name bookkeeping: its lines must equal the implementation's text token by token (both cycles), and reading them with the model reader predicts which explicit names the unmodified pair preserves; an explicit name that the pair preserves must survive in the implementation (key names:lost:*), a name the pair itself loses is excused only under the key of its recorded class (the classes are the predicates kc_dollar / kc_default_like / kc_input_output of Proofs/Btor2NamesSurvive.v, each with a refuting witness in Props/C09.v)",
+    "names: proved for inputs (C09_names_survive_inputs_partial / _outside_known: an input whose name the writer prints on its declaration comes back as the same symbol at the same position; outside KnownClass every explicit input name that is apart from the state / debug / output names) and for outputs (C09_names_survive_outputs_partial: an explicit output name apart from the tokens printed before it keeps its position), on top of the reader's name-in-use invariant (C09_names_in_use, every text); names of STATES are tested, not proved. Model/Btor2SerNames.v models the writer INCLUDING its name bookkeeping: its lines must equal the implementation's text token by token (both cycles), and reading them with the model reader predicts which explicit names the unmodified pair preserves; an explicit name that the pair preserves must survive in the implementation (key names:lost:*), a name the pair itself loses is excused only under the key of its recorded class (the classes are the predicates kc_dollar / kc_default_like / kc_input_output of Proofs/Btor2NamesSurvive.v, each with a refuting witness in Props/C09.v)",
 ]
 TRUSTED = ["ocaml/driver/c09.ml: positional matching, memoised graph comparison, valuation construction"]
 
@@ -37,14 +37,16 @@ MANIFEST = dict(
                 "and the system read back corresponds to demote(sy) position by position - same counts, symbols of the same types, and every init/next/output/bad/constraint "
                 "expression has, in every well-formed environment, the value of its original under the positionally induced environment), by an invariant of the writer's "
                 "emission loop (id cache, shared sort table, post-order emission, builders' normal forms, array-init broadcast, renaming and demotion by the reader; a name token only feeds the "
-                "reader's name bookkeeping, an alias line binds a fresh id nothing refers to); C09_names_survive_inputs_partial (an input whose name is printed on its declaration keeps its symbol); "
+                "reader's name bookkeeping, an alias line binds a fresh id nothing refers to); names: C09_names_in_use (the reader's name-in-use invariant, every text), C09_names_survive_inputs_partial / C09_names_survive_inputs_outside_known (inputs keep their symbol), C09_names_survive_outputs_partial (outputs keep their name); "
                 "plus the node-level lemmas and C09_reread_means_text_partial. Tie to /repo: real serialize + parse_str on generated, parsed and all shipped systems on every run."),
     level_note=("Hypotheses of the round trip: sys_ok_weak (sys_ok for the reader of /repo), pairwise distinct declared symbols (counterexample without: C09_dup_symbol_diverges), "
                 "all widths below 2^32, fewer than 2^32 lines. C09_roundtrip_complete adds the converse direction for closed systems (every environment of sy has a partner environment of the "
                 "system read back) using C09_accepted_symbols_distinct (the symbols of EVERY accepted system are pairwise distinct: unique_name is fresh). "
                 "For the prepared reader Fix2 (uext refuses an array operand) the named round trip needs a writer without array aliases (w_no_array_alias; necessary: C09_fix2_needs_no_array_alias). "
-                "Names: proved for inputs only (hypothesis: pairwise distinct input names; conclusion for every input that is in_named, i.e. explicit and not used as a label - necessary: "
-                "C09_names_input_output_refuted); names of states and outputs are not proved (roundtrip_full is false in the classes KnownClass, each refuted by a witness: C09_names_dollar_refuted, "
+                "Names: proved for inputs (hypothesis: pairwise distinct input names; conclusion for every input that is in_named, i.e. explicit and not used as a label - necessary: "
+                "C09_names_input_output_refuted; _outside_known: KnownClass = false, every explicit input name apart from state / debug names and not b_k for an output / state / debug name b, writer with w_input_labels, bads/constraints on declared symbols) "
+                "and for outputs (pairwise distinct non-reserved output names; conclusion for every output name that is explicit, none of the tokens printed before the outputs and not b_k for such a token or another output name - necessary: C09_names_default_output_refuted); "
+                "names of STATES are not proved (the declaration gets the name it asks for by the same invariant, but improve_state_names may rename a state after a later label / alias / node line whose expression is the state symbol: that analysis is open) (roundtrip_full is false in the classes KnownClass, each refuted by a witness: C09_names_dollar_refuted, "
                 "C09_names_input_output_refuted, C09_names_default_state_refuted, C09_names_default_output_refuted; C09_names_hyps is the non-vacuity example): name-stability defects of the "
                 "writer/reader pair are recorded as known findings (names:...); "
                 "Model.serialize_named_v takes the writer variant (driver constant writer_variant)."),
